@@ -9,7 +9,7 @@
 (* `search` events carrying the abstract request, the check kind and the   *)
 (* observed responses.  Verdicts are non-blocking (FAIL / DEV lines).      *)
 (***************************************************************************)
-EXTENDS Collapse, Rescore, Json, IOUtils
+EXTENDS Collapse, Rescore, Highlight, Json, IOUtils
 
 Rec == ndJsonDeserialize(IOEnv.TRACE)
 
@@ -28,9 +28,21 @@ LoadDict(e) ==
           LET x == CHOOSE y \in SeqToSet(e.entries) : y.s = s IN
           [cp |-> x.cp, lc |-> x.lc, alc |-> x.alc]]
 
+(* C21: every hit of the event is judged by Highlight.tla HitVerdict; one    *)
+(* message per event (a FAIL wins over a DEV).                              *)
+CheckHighlight(e) ==
+  LET vs == [i \in DOMAIN e.hits |-> HitVerdict(e.hits[i], e.fsize, e.nfrag)]
+      fails == {i \in DOMAIN vs : vs[i].v = "FAIL"}
+      devs == {i \in DOMAIN vs : vs[i].v = "DEV"}
+  IN IF ~e.ok THEN Tell("FAIL", e.prop, l, info.scn, e, "search returned an error", "")
+     ELSE IF fails # {} THEN Tell("FAIL", e.prop, l, info.scn, e, vs[CHOOSE i \in fails : TRUE].why, "")
+     ELSE IF devs # {} THEN Tell("DEV", e.prop, l, info.scn, e, vs[CHOOSE i \in devs : TRUE].why, "S21a")
+     ELSE TRUE
+
 Judge(e) ==
   CASE e.check = "collapse" -> CheckCollapse(D, docs, e, l, info.scn)
     [] e.check = "rescore" -> CheckRescore(D, docs, e, l, info.scn)
+    [] e.check = "highlight" -> CheckHighlight(e)
     [] OTHER -> Tell("TOOL", e.prop, l, info.scn, e, "unknown check kind", "")
 
 TNext ==
